@@ -250,7 +250,29 @@ def r5_builders_wrap_their_own_kind(ctx):
     R.floor("C20.R5", n, 2, "constructions of ObjectParams / ArrayParams")
 
 
-RULES = [r1_rollback, r2_build, r3_impls, r4_batch_builder, r5_builders_wrap_their_own_kind]
+
+def rgen_generated_clients(ctx):
+    """the stubs #[rpc(client)] generates put every argument they are given into the builder (checked over the generated
+    corpus of C17: positional and by-name, Option arguments included)"""
+    from . import c17
+    n = c17.client_encodes_every_argument(ctx, "C20.GEN")
+    ctx.R.floor("C20.GEN", n, 50, "generated client stubs")
+
+
+LIB_RULES = [r1_rollback, r2_build, r3_impls, r4_batch_builder, r5_builders_wrap_their_own_kind]
+CONFIGS_QUICK = ["libs-all", "corpus"]
+CONFIGS_THOROUGH = ["libs-all", "facade-full", "corpus"]
+
+
+def _only(cfgs, rule):
+    def run(ctx):
+        if ctx.config in cfgs:
+            return rule(ctx)
+    run.__name__ = rule.__name__
+    return run
+
+
+RULES = [_only(("libs-all", "facade-full"), r) for r in LIB_RULES] + [_only(("corpus",), rgen_generated_clients)]
 
 LEVEL_TEXT = (
     "Structural necessary conditions decided from the type-checked program: rollback on every error exit of both insert "
